@@ -103,6 +103,45 @@ func cfgMetas() []cfgMeta {
 	return out
 }
 
+// documentedDefaultTokens: key -> rendered documented default (driver op config.documented); filled by checkC14
+var documentedDefaultTokens = map[string]string{}
+
+// setRendered stores a rendered token (renderField) into a field of the configuration
+func setRendered(f reflect.Value, kind, tok string) {
+	if len(tok) < 1 {
+		return
+	}
+	switch kind {
+	case "float":
+		if isF, x, ok := vh.ParseTok(tok); ok && isF {
+			f.SetFloat(x)
+		}
+	case "int":
+		if n, err := strconv.ParseInt(tok[1:], 10, 64); err == nil && tok[0] == 'i' {
+			f.SetInt(n)
+		}
+	case "text":
+		if b, err := hex.DecodeString(tok[1:]); err == nil && tok[0] == 't' {
+			f.SetString(string(b))
+		}
+	case "switch":
+		f.SetBool(tok == "b1")
+	}
+}
+
+// documentedConfig: the documented defaults as a Config value (keys without a documented default keep
+// NewDefaultConfig()'s value; their absence is reported by stage A0)
+func documentedConfig() hermes.Config {
+	cfg := hermes.NewDefaultConfig()
+	v := reflect.ValueOf(&cfg).Elem()
+	for _, m := range cfgMetas() {
+		if tok, ok := documentedDefaultTokens[m.Name]; ok {
+			setRendered(v.Field(m.Idx), m.Kind, tok)
+		}
+	}
+	return cfg
+}
+
 func sHex(s string) string { return "s" + hex.EncodeToString([]byte(s)) }
 
 func renderField(v reflect.Value, kind string) string {
@@ -456,6 +495,13 @@ type expected struct {
 func expect(cs *cfgCase, metas []cfgMeta) *expected {
 	ex := &expected{cfg: hermes.NewDefaultConfig(), layer: map[string]string{}, undef: map[string]bool{}}
 	v := reflect.ValueOf(&ex.cfg).Elem()
+	// the lowest layer is the DOCUMENTED default (pinned in HermesModel/ConfigDoc.lean, read once through the
+	// driver), not whatever NewDefaultConfig() of the code under test returns
+	for _, m := range metas {
+		if tok, ok := documentedDefaultTokens[m.Name]; ok {
+			setRendered(v.Field(m.Idx), m.Kind, tok)
+		}
+	}
 	byName := map[string]cfgMeta{}
 	for _, m := range metas {
 		byName[m.Name] = m
@@ -633,6 +679,9 @@ func checkC14(c *vh.Ctx) {
 	flush("config.defaults")
 	if doc, err := c.RunDriver([]string{"config.documented"}); err == nil && len(doc) == 1 {
 		want := parseRendered(doc[0])
+		for k, v := range want {
+			documentedDefaultTokens[k] = v
+		}
 		// the implementation without file and without arguments
 		cs := &cfgCase{Root: "/data/root", NoFile: true}
 		cfg, _, pan := readConfigInProc(cs, filepath.Join(c.Scratch, "absent.yml"), nil)
